@@ -41,7 +41,7 @@ pub fn leaf_atoms() -> Vec<Cell> {
     ]
 }
 
-pub const N_SHAPES: usize = 13;
+pub const N_SHAPES: usize = 15;
 
 /// One-hole shapes; `a` is a fixed sibling atom.
 pub fn shape(k: usize, hole: Cell) -> Cell {
@@ -60,6 +60,9 @@ pub fn shape(k: usize, hole: Cell) -> Cell {
         10 => list(vec![hole]),
         11 => Cell::new_improper_list(vec![sym("quote")], hole),
         12 => list(vec![sym("unquote-splicing"), hole]),
+        // a vector that looks like a quote form when taken for the list of its elements
+        13 => Cell::Vector(vec![sym("quote"), hole]),
+        14 => Cell::Vector(vec![sym("unquote"), hole]),
         _ => unreachable!(),
     }
 }
